@@ -461,8 +461,14 @@ class LLMRails:
         the exact roles and contents to make sure the events of one conversation are
         never used for another one.
         """
+        # Like the history cache key, we only consider the messages that are part of the
+        # conversation history (e.g. not the "exception" message returned for a blocked turn).
         exact_messages = json.dumps(
-            [[msg["role"], msg.get("content"), msg.get("event")] for msg in messages],
+            [
+                [msg["role"], msg.get("content"), msg.get("event")]
+                for msg in messages
+                if msg["role"] in ["user", "assistant", "context", "event"]
+            ],
             default=str,
         )
         return get_history_cache_key(messages) + "\n" + exact_messages
